@@ -694,7 +694,11 @@ def concretize_floor(s):
         return math.floor(n.val)
     v = evalf(n)
     k = math.floor(v)
-    record_pc(sub(n, const(k)), ">" if v > k else "tie")
+    # an exactly integral value is a kink for data, but a legitimate configuration for hyper-parameters
+    # (split fraction 1.0, batch fractions ...): there the equality is recorded and explored like any other branch
+    vs = node_vars(n)
+    hyper = bool(vs) and all(CTX.vars[x].kind == "hyper" for x in vs)
+    record_pc(sub(n, const(k)), ">" if v > k else ("==" if (hyper or CTX.allow_ties) else "tie"))
     record_pc(sub(n, const(k + 1)), "<")
     return k
 
